@@ -1,4 +1,5 @@
 import O2P.Lemmas.Civil
+import O2P.Lemmas.Float
 /-!
 # C16 — PV timestamps and OTel nanosecond times convert consistently
 
@@ -123,6 +124,50 @@ theorem formatMicros_injective {k k' : Nat} (h : k < maxMicros) (h' : k' < maxMi
   rw [e] at a
   rw [a] at b
   exact Option.some.inj b
+
+/-! ### the binary64 direction (`unix_nano_to_pv_string`) -/
+
+theorem maxMicros_range : 1000 * maxMicros < 4200000000000000000 := by decide
+
+/-- **OTel → PV preserves the microsecond value.**  For every instant of the range,
+`unix_nano_to_pv_string` of its nanosecond count — through `float(n)`, the division by 1e9, `modf`,
+the product with 1e6, round-half-even and the carry, each modelled bit-exactly — is the text of that
+instant: no rounding step of the binary64 path can move a whole microsecond. -/
+theorem fromNanos_exact {k : Nat} (h : k < maxMicros) : fromNanos (1000 * k) = formatMicros k := by
+  unfold fromNanos
+  rw [fromNanosMicros_exact k (by have := maxMicros_range; omega)]
+
+/-- … for an arbitrary nanosecond count the microsecond shown is within 0.995 µs of it -/
+theorem fromNanos_within {n : Nat} (h : n < 1000 * maxMicros) :
+    |((fromNanosMicros n : Nat) : ℚ) * 1000 - n| < 995 :=
+  fromNanos_near n (by have := maxMicros_range; omega)
+
+/-- **order**: distinct microsecond instants are shown in their order (strictly), and arbitrary
+nanosecond counts at least 1.99 µs apart are never swapped -/
+theorem fromNanos_order {k k' : Nat} (h : k < maxMicros) (h' : k' < maxMicros) (lt : k < k') :
+    fromNanosMicros (1000 * k) < fromNanosMicros (1000 * k') := by
+  have r := maxMicros_range
+  rw [fromNanosMicros_exact k (by omega), fromNanosMicros_exact k' (by omega)]
+  exact lt
+
+theorem fromNanos_order_far {n n' : Nat} (h' : n' < 1000 * maxMicros) (far : n + 1990 ≤ n') :
+    fromNanosMicros n ≤ fromNanosMicros n' :=
+  fromNanosMicros_mono_far n n' (by have := maxMicros_range; omega) far
+
+/-- **PV → OTel → PV** returns every microsecond-precision timestamp unchanged -/
+theorem pv_otel_pv {k : Nat} (h : k < maxMicros) :
+    (toNanos (formatMicros k)).map fromNanos = some (formatMicros k) := by
+  rw [toNanos_exact h, Option.map_some, fromNanos_exact h]
+
+/-- **OTel → PV → OTel** returns every whole-microsecond nanosecond count unchanged -/
+theorem otel_pv_otel {k : Nat} (h : k < maxMicros) :
+    toNanos (fromNanos (1000 * k)) = some (1000 * k) := by
+  rw [fromNanos_exact h, toNanos_exact h]
+
+/-- non-vacuity: the last instant of the range, 2100-12-31T23:59:59.999999Z, takes the path with the
+largest rounding errors (float(n) loses 224 ns there) and still comes back exactly -/
+example : fromNanos (1000 * (maxMicros - 1)) = "2100-12-31T23:59:59.999999Z".toList := by
+  decide +kernel
 
 /-- The unrepaired converter (microseconds counted twice) was wrong on the documented example
 `2023-09-25T10:58:06.059959Z`; kept as the negative lemma of the `fix:` commit. -/
